@@ -141,7 +141,9 @@ def seek_guard_rule(F, G, rep, hashname):
     b = F.body(READ)
     root = b["tir"]["value"]
     par = safety.parents(root)
-    seeks = [n for n in tir.walk(root) if n.get("k") == "MethodCall" and n["method"] == "seek"]
+    # every method of the Seek trait goes through the wrapper's `seek` (stream_position = seek(Current(0)), rewind, seek_relative,
+    # stream_len), which drops the hasher: a position query in a log line is a seek
+    seeks = [n for n in tir.walk(root) if n.get("k") == "MethodCall" and (n["method"] == "seek" or (declared(n) or "").startswith("std::io::Seek::"))]
     rep.floor("seek call sites in read()", len(seeks), 1)
     for s in seeks:
         x = s
